@@ -80,7 +80,8 @@ class BinSys:
     def events(self, snap, model):
         if self.chain:
             import itertools
-            return [("chain",) + seq for seq in itertools.product(self.ops, repeat=self.chain)]
+            ops = self.ops if self.chain <= 2 else [op for op in self.ops if op[1] in self.keys]
+            return [("chain",) + seq for seq in itertools.product(ops, repeat=self.chain)]
         return [("op", op, f) for op in self.ops for f in self.forms]
 
     @staticmethod
